@@ -470,7 +470,7 @@ def c01(pid, tier, seed, t0):
     mc = [mc_register("C01", "SmallDecls", ["a", "b"], ["TypeOK", "GetArith", "UpperBitsZero"], [])]
     _, star = vlib.corpus("star")
     _, model = vlib.corpus("model")
-    rnd = sub(gen_random(tier, seed, "overlap", "c01", 60, 600), lambda d, f: contiguous(d, f) and f["access"] != "w")
+    rnd = sub(gen_random(tier, seed, "overlap", "c01", 60, 600, custom=True), lambda d, f: contiguous(d, f) and f["access"] != "w")
     decls = copyd(star) + copyd(model) + copyd(rnd) + (tall_chunks() if tier == "thorough" else [])
     declfile = save_decls("C01", decls)
     legs = [trace_leg(pid, tier, seed, "star+model+rand", decls, declfile, "get,tableget", q(tier, 1, 6), crate="rt-c01")]
@@ -487,7 +487,7 @@ def c02(pid, tier, seed, t0):
     mc = [mc_register("C02", "SmallDecls", ["a", "b"], ["TypeOK", "Frame", "ReadBack", "WriteBackIdentity"], ["ReceiverSame"])]
     _, star = vlib.corpus("star")
     _, model = vlib.corpus("model")
-    rnd = sub(gen_random(tier, seed, "overlap", "c02", 60, 600), lambda d, f: f["access"] != "r")
+    rnd = sub(gen_random(tier, seed, "overlap", "c02", 60, 600, custom=True), lambda d, f: f["access"] != "r")
     _, nc = vlib.corpus("nc")
     _, arr = vlib.corpus("arr")
     # "every writable field": the contiguous scalars carry the weight, range lists and a slice of the arrays ride along
@@ -510,7 +510,7 @@ def c03(pid, tier, seed, t0):
     mc = [mc_register("C03", "SmallDecls", ["a", "b"], ["TypeOK", "Frame", "ReadBack", "GetArith"], [])]
     _, arr = vlib.corpus("arr")
     _, nc = vlib.corpus("nc")
-    rnd = sub(gen_random(tier, seed, "overlap", "c03", 120, 1200), lambda d, f: bool(f["array"]))
+    rnd = sub(gen_random(tier, seed, "overlap", "c03", 120, 1200, custom=True), lambda d, f: bool(f["array"]))
     decls = copyd(arr) + copyd(sub(nc, lambda d, f: bool(f["array"]))) + copyd(rnd)
     if tier == "quick":
         # every (element kind, K class, stride class, lo) is kept; of the 8 bases the two largest are thinned to every 2nd field
@@ -529,7 +529,7 @@ def c03(pid, tier, seed, t0):
 def c04(pid, tier, seed, t0):
     mc = [mc_register("C04", "SmallDecls", ["a", "b"], ["TypeOK", "Frame", "ReadBack", "WriteBackIdentity"], [])]
     _, nc = vlib.corpus("nc")
-    rnd = sub(gen_random(tier, seed, "overlap", "c04", 150, 2000), lambda d, f: f["list"])
+    rnd = sub(gen_random(tier, seed, "overlap", "c04", 150, 2000, custom=True), lambda d, f: f["list"])
     decls = copyd(nc) + copyd(rnd)
     declfile = save_decls("C04", decls)
     legs = [trace_leg(pid, tier, seed, "nc+rand", decls, declfile, "get,write,table", q(tier, 2, 6), crate="rt-c04")]
@@ -547,7 +547,7 @@ def c05(pid, tier, seed, t0):
     _, star = vlib.corpus("star")
     _, arr = vlib.corpus("arr")
     _, nc = vlib.corpus("nc")
-    rnd = gen_random(tier, seed, "overlap", "c05", 200, 2000)
+    rnd = gen_random(tier, seed, "overlap", "c05", 200, 2000, custom=True)
     signed = lambda d, f: f["kind"] == "inat"
     decls = copyd(sub(star, signed)) + copyd(sub(arr, signed)) + copyd(sub(nc, signed)) + copyd(sub(rnd, signed))
     if tier == "thorough":
@@ -567,6 +567,8 @@ def c06(pid, tier, seed, t0):
     decls = copyd(base)
     declfile = save_decls("C06", decls)
     legs = [trace_leg(pid, tier, seed, "base", decls, declfile, "base", q(tier, 1, 8), crate="rt-c06")]
+    # for ALL raw values: new_with_raw_value(r).raw_value() = r with nothing stored at or above bit N; ZERO; DEFAULT
+    sym(pid, decls, ops=("base",))
     # a user-written #[derive(Default)] next to a declared default: either rejected (conflicting impls) or, if it compiles,
     # Default::default() still carries the declared value
     import verdicts
